@@ -252,10 +252,9 @@ def eval_match(case, obj=None, codes=None, inv=None):
 def history_alphabet(cfg):
     fam, key, alg, digits = cfg["fam"], cfg["key"], cfg["alg"], cfg["digits"]
     codes = code_table(fam, key, alg, digits, cfg["top"] + 2)
-    alpha = []
-    for c in range(cfg["top"] + 1):
-        if codes[c] not in alpha:
-            alpha.append(codes[c])
+    # hmac: the code of every counter (an accidental collision only repeats an event; never deduplicated, so the
+    # seed cannot change the number of cases); mod3: the three codes there are
+    alpha = [codes[c] for c in range(cfg["top"] + 1)] if fam == "hmac" else codes[:3]
     alpha.append(unassigned_code(codes, digits))
     alpha.append("12")  # malformed
     return codes, alpha
@@ -405,10 +404,7 @@ def work(task):
     inv = collections.defaultdict(list)
     for c, txt in enumerate(codes):
         inv[txt].append(c)
-    distinct = []
-    for c in range(top + 1):
-        if codes[c] not in distinct:
-            distinct.append(codes[c])
+    distinct = [codes[c] for c in range(top + 1)] if fam == "hmac" else codes[:3]
     free = unassigned_code(codes, digits)
     base = {"kind": "match", "fam": fam, "key": key, "alg": alg, "digits": digits, "period": period, "window": window, "skew": skew, "top": top}
 
